@@ -277,17 +277,11 @@ theorem candInner_foldl (c : Nat) (ds : List Decl) (m : Nat) (L : List Decl) :
         · have : candInner c (m, L) d = (c, [d]) := by simp [candInner, hk, hlt, hgt]
           rw [this, ih]
           simp [hk, hlt, hgt, List.filter_cons]
-          by_cases hr : r.filter (·.kind == Kind.type) = []
-          · simp [hr]
-          · simp [hr]
         · have hcm : c = m := by omega
           subst hcm
           have : candInner c (c, L) d = (c, L ++ [d]) := by simp [candInner, hk]
           rw [this, ih]
           simp [hk, List.filter_cons]
-          by_cases hr : r.filter (·.kind == Kind.type) = []
-          · simp [hr]
-          · simp [hr]
     · have : candInner c (m, L) d = (m, L) := by simp [candInner, hk]
       rw [this, ih]
       simp [hk, List.filter_cons]
@@ -305,9 +299,12 @@ theorem candMax_ge (g : Graph) (used : List Name) (l : List (Name × Nat)) (m : 
   | nil => simp
   | cons a r ih =>
     simp only [List.foldl_cons]
-    have := ih (candMaxStep g used m a)
-    unfold candMaxStep at this ⊢
-    split at this <;> omega
+    have h1 : m ≤ candMaxStep g used m a := by
+      unfold candMaxStep
+      by_cases h : used.contains a.1 = true ∧ typeDecls g a.1 ≠ [] ∧ a.2 > m
+      · rw [if_pos h]; omega
+      · rw [if_neg h]; omega
+    exact Nat.le_trans h1 (ih (candMaxStep g used m a))
 
 theorem cand_foldl (g : Graph) (used : List Name) (l : List (Name × Nat)) (m0 : Nat) (L0 : List Decl) :
     l.foldl (candStep g used) (m0, L0) =
@@ -321,7 +318,8 @@ theorem cand_foldl (g : Graph) (used : List Name) (l : List (Name × Nat)) (m0 :
     have hge := candMax_ge g used r (candMaxStep g used m0 a)
     rw [candStep_eq]
     by_cases hu : used.contains a.1 = true
-    · simp only [hu, Bool.not_true, Bool.false_eq_true, if_false]
+    · have hu2 : a.1 ∈ used := by simpa using hu
+      simp only [hu, Bool.not_true, Bool.false_eq_true, if_false]
       rw [candInner_foldl]
       have htd : (declsOf g a.1).filter (·.kind == Kind.type) = typeDecls g a.1 := rfl
       rw [htd]
@@ -329,9 +327,10 @@ theorem cand_foldl (g : Graph) (used : List Name) (l : List (Name × Nat)) (m0 :
       · have hm : candMaxStep g used m0 a = m0 := by
           unfold candMaxStep
           rcases hc with hc | hc
-          · simp [hu]; intro _ h; omega
+          · simp [hu2]; intro _ h; omega
           · simp [hc]
-        rw [if_pos hc, ih, hm]
+        rw [if_pos hc, ih]
+        simp only [hm]
         congr 1
         have : candSel g used (List.foldl (candMaxStep g used) m0 r) a = [] := by
           unfold candSel
@@ -348,43 +347,60 @@ theorem cand_foldl (g : Graph) (used : List Name) (l : List (Name × Nat)) (m0 :
           · intro h; exact hc (Or.inr h)
         by_cases hgt : a.2 > m0
         · have hm : candMaxStep g used m0 a = a.2 := by
-            unfold candMaxStep; simp [hu, hc'.2, hgt]
-          rw [if_pos hgt, ih, hm]
+            unfold candMaxStep; simp [hu2, hc'.2, hgt]
+          rw [if_pos hgt, ih]
+          simp only [hm]
           rw [hm] at hge
           congr 1
           have hne : List.foldl (candMaxStep g used) a.2 r ≠ m0 := by omega
           simp only [hne, if_false, List.nil_append]
           unfold candSel
           by_cases heq : List.foldl (candMaxStep g used) a.2 r = a.2
-          · simp [heq, hu]
+          · simp [heq, hu2]
           · have : a.2 ≠ List.foldl (candMaxStep g used) a.2 r := fun h => heq h.symm
             simp [heq, this]
         · have heq : a.2 = m0 := by omega
           have hm : candMaxStep g used m0 a = m0 := by
-            unfold candMaxStep; simp [hu, hc'.2]; omega
-          rw [if_neg hgt, ih, hm]
+            unfold candMaxStep; simp [hu2, hc'.2]; omega
+          rw [if_neg hgt, ih]
+          simp only [hm]
           congr 1
           unfold candSel
           by_cases hM : List.foldl (candMaxStep g used) m0 r = m0
-          · simp [hM, hu, heq]
+          · simp [hM, hu2, heq]
           · have : a.2 ≠ List.foldl (candMaxStep g used) m0 r := by rw [heq]; exact fun h => hM h.symm
             simp [hM, this]
     · have hu' : used.contains a.1 = false := by simpa using hu
+      have hu2 : a.1 ∉ used := by simpa using hu'
       simp only [hu', Bool.not_false, if_true]
-      have hm : candMaxStep g used m0 a = m0 := by unfold candMaxStep; simp [hu']
-      rw [ih, hm]
+      have hm : candMaxStep g used m0 a = m0 := by unfold candMaxStep; simp [hu2]
+      rw [ih]
+      simp only [hm]
       congr 1
       have : candSel g used (List.foldl (candMaxStep g used) m0 r) a = [] := by
-        unfold candSel; simp [hu']
+        unfold candSel; simp [hu2]
       rw [this]; simp
+
+theorem candMaxStep_eq (g : Graph) (used : List Name) (m : Nat) (a : Name × Nat) :
+    candMaxStep g used m a =
+      if used.contains a.1 = true ∧ typeDecls g a.1 ≠ [] then max m a.2 else m := by
+  unfold candMaxStep
+  by_cases h : used.contains a.1 = true ∧ typeDecls g a.1 ≠ []
+  · rw [if_pos h]
+    by_cases h2 : a.2 > m
+    · rw [if_pos ⟨h.1, h.2, h2⟩]; omega
+    · rw [if_neg (fun hh => h2 hh.2.2)]; omega
+  · rw [if_neg h, if_neg (fun hh => h ⟨hh.1, hh.2.1⟩)]
 
 theorem candMaxStep_comm (g : Graph) (used : List Name) (m : Nat) (a b : Name × Nat) :
     candMaxStep g used (candMaxStep g used m a) b = candMaxStep g used (candMaxStep g used m b) a := by
-  unfold candMaxStep
+  simp only [candMaxStep_eq]
   by_cases ha : used.contains a.1 = true ∧ typeDecls g a.1 ≠ [] <;>
-  by_cases hb : used.contains b.1 = true ∧ typeDecls g b.1 ≠ [] <;>
-  simp only [ha, hb, true_and, false_and, and_true, and_false, if_false, ← and_assoc] <;>
-  (repeat' split) <;> omega
+  by_cases hb : used.contains b.1 = true ∧ typeDecls g b.1 ≠ []
+  · simp only [if_pos ha, if_pos hb]; omega
+  · simp only [if_pos ha, if_neg hb]
+  · simp only [if_neg ha, if_pos hb]
+  · simp only [if_neg ha, if_neg hb]
 
 theorem candMax_perm (g : Graph) (used : List Name) {l1 l2 : List (Name × Nat)} (hp : l1.Perm l2) (m : Nat) :
     l1.foldl (candMaxStep g used) m = l2.foldl (candMaxStep g used) m := by
@@ -400,5 +416,146 @@ theorem cand_perm (g : Graph) (used : List Name) {l1 l2 : List (Name × Nat)} (h
   rw [cand_foldl, cand_foldl, candMax_perm g used hp]
   simp only [ite_self, List.nil_append]
   exact hp.flatMap_right _
+
+/-! ## WF is preserved by the steps of the loop -/
+
+theorem WF.map_edges {g : Graph} (h : WF g) (f : Entry → List Name) (hf : ∀ e ∈ g, (f e).Nodup) :
+    WF (g.map fun e => { e with edges := f e }) where
+  names_nodup := by simpa [names, List.map_map, Function.comp_def] using h.names_nodup
+  pos_inj := by rw [allDecls_map_edges]; exact h.pos_inj
+  nonempty := by
+    intro e' he'; obtain ⟨e, he, rfl⟩ := List.mem_map.mp he'; exact h.nonempty e he
+  ascending := by
+    intro e' he'; obtain ⟨e, he, rfl⟩ := List.mem_map.mp he'; exact h.ascending e he
+  decl_name := by
+    intro e' he'; obtain ⟨e, he, rfl⟩ := List.mem_map.mp he'; exact h.decl_name e he
+  edges_nodup := by
+    intro e' he'; obtain ⟨e, he, rfl⟩ := List.mem_map.mp he'; exact hf e he
+
+theorem WF.removeUnresolvable {g : Graph} (h : WF g) : WF (removeUnresolvable g) :=
+  h.map_edges _ fun e he => (h.edges_nodup e he).sublist List.filter_sublist |> fun x => x
+
+theorem WF.removeNode {g : Graph} (h : WF g) (n : Name) : WF (removeNode g n) where
+  names_nodup := (names_removeNode_sublist g n).nodup h.names_nodup
+  pos_inj := h.pos_inj.of_subset fun d hd => by
+    obtain ⟨e, he, hde⟩ := mem_allDecls.mp hd
+    exact mem_allDecls.mpr ⟨e, (List.mem_filter.mp he).1, hde⟩
+  nonempty := fun e he => h.nonempty e (List.mem_filter.mp he).1
+  ascending := fun e he => h.ascending e (List.mem_filter.mp he).1
+  decl_name := fun e he => h.decl_name e (List.mem_filter.mp he).1
+  edges_nodup := fun e he => h.edges_nodup e (List.mem_filter.mp he).1
+
+/-- the candidate list of `removeTypeFwd` -/
+def fwdCands (ord : Ord) (k : Nat) (g : Graph) : List Decl :=
+  let roots := (sortByPos (allDecls (ord.sh k g))).reverse.map (·.name)
+  let children := fun n => childrenOf g (ord.sh (k + 1) (edgesOf g n))
+  let ctx := visitRoots children g.length (dfsFuel g) roots {}
+  ((ord.sh (k + 2) ctx.visited).foldl (candStep g (usedByTypes g)) (1, [])).2
+
+theorem removeTypeFwd_snd (ord : Ord) (k : Nat) (g : Graph) :
+    (removeTypeFwd ord k g).2 =
+      g.map fun e => { e with edges :=
+        (if isTypeEntry e = true then e.edges.filter (fun n => !(fwdCands ord k g).any (·.name == n)) else e.edges) } := by
+  simp only [removeTypeFwd, fwdCands]
+  apply List.map_congr_left
+  intro e _
+  split <;> rfl
+
+theorem WF.removeTypeFwd {g : Graph} (h : WF g) (ord : Ord) (k : Nat) : WF (removeTypeFwd ord k g).2 := by
+  rw [removeTypeFwd_snd]
+  apply h.map_edges
+  intro e he
+  split
+  · exact (h.edges_nodup e he).sublist List.filter_sublist
+  · exact h.edges_nodup e he
+
+/-! ## RemoveTypeFwd does not depend on the iteration orders -/
+
+theorem declsOf_subset {g : Graph} {n : Name} {d : Decl} (hd : d ∈ declsOf g n) : d ∈ allDecls g := by
+  unfold declsOf at hd
+  split at hd
+  · rename_i e hf
+    exact mem_allDecls.mpr ⟨e, List.mem_of_find?_eq_some hf, hd⟩
+  · cases hd
+
+theorem childrenOf_perm {g : Graph} (h : WF g) {es1 es2 : List Name} (hp : es1.Perm es2) :
+    childrenOf g es1 = childrenOf g es2 := by
+  unfold childrenOf
+  rw [sortByPos_eq_of_perm (hp.flatMap_right _)]
+  exact h.pos_inj.of_subset fun d hd => by
+    obtain ⟨n, _, hdn⟩ := List.mem_flatMap.mp hd
+    exact declsOf_subset hdn
+
+theorem cand_mem (g : Graph) (used : List Name) (l : List (Name × Nat)) {d : Decl}
+    (hd : d ∈ (l.foldl (candStep g used) (1, [])).2) : d ∈ allDecls g := by
+  rw [cand_foldl] at hd
+  simp only [ite_self, List.nil_append] at hd
+  obtain ⟨nc, _, hdn⟩ := List.mem_flatMap.mp hd
+  unfold candSel at hdn
+  split at hdn
+  · exact declsOf_subset (List.mem_filter.mp hdn).1
+  · cases hdn
+
+theorem removeTypeFwd_ord {g : Graph} (h : WF g) (ord : Ord) (hord : ord.OK) (k : Nat) :
+    (removeTypeFwd ord k g).2 = (removeTypeFwd Ord.id k g).2 ∧
+    sortByPos (removeTypeFwd ord k g).1 = sortByPos (removeTypeFwd Ord.id k g).1 := by
+  have hroots : sortByPos (allDecls (ord.sh k g)) = sortByPos (allDecls g) := by
+    apply sortByPos_eq_of_perm ((hord k g).flatMap_right _)
+    exact h.pos_inj.of_subset fun d hd => by
+      obtain ⟨e, he, hde⟩ := mem_allDecls.mp hd
+      exact mem_allDecls.mpr ⟨e, (hord k g).mem_iff.mp he, hde⟩
+  have hchildren : (fun n => childrenOf g (ord.sh (k + 1) (edgesOf g n))) = (fun n => childrenOf g (edgesOf g n)) := by
+    funext n; exact childrenOf_perm h (hord _ _)
+  simp only [removeTypeFwd, Ord.id, hroots, hchildren]
+  generalize visitRoots (fun n => childrenOf g (edgesOf g n)) g.length (dfsFuel g)
+    (List.map (fun x => x.name) (sortByPos (allDecls g)).reverse) {} = ctx
+  have hperm := cand_perm g (usedByTypes g) (hord (k + 2) ctx.visited)
+  constructor
+  · apply List.map_congr_left
+    intro e _
+    have : ∀ n, (List.foldl (candStep g (usedByTypes g)) (1, []) (ord.sh (k + 2) ctx.visited)).2.any (·.name == n) =
+        (List.foldl (candStep g (usedByTypes g)) (1, []) ctx.visited).2.any (·.name == n) := fun n => hperm.any_eq
+    simp only [this]
+  · apply sortByPos_eq_of_perm (hperm.map _)
+    intro a ha b hb hab
+    obtain ⟨a', ha', rfl⟩ := List.mem_map.mp ha
+    obtain ⟨b', hb', rfl⟩ := List.mem_map.mp hb
+    have := h.pos_inj a' (cand_mem g _ _ ha') b' (cand_mem g _ _ hb') hab
+    rw [this]
+
+/-! ## sort_deterministic -/
+
+theorem sortLoop_det (ord : Ord) (hord : ord.OK) :
+    ∀ (fuel round round' : Nat) (g : Graph) (acc : List Decl), WF g →
+      sortLoop ord fuel round g acc = sortLoop Ord.id fuel round' g acc := by
+  intro fuel
+  induction fuel with
+  | zero => intros; rfl
+  | succ fuel ih =>
+    intro round round' g acc hwf
+    simp only [sortLoop]
+    split
+    · rfl
+    · have hpick : pickNoDeps (ord.sh (4 * round) g) = pickNoDeps (Ord.id.sh (4 * round') g) :=
+        pickNoDeps_perm hwf (hord _ g)
+      rw [hpick]
+      cases hp : pickNoDeps (Ord.id.sh (4 * round') g) with
+      | some e =>
+        simp only
+        exact ih _ _ _ _ (hwf.removeNode e.name).removeUnresolvable
+      | none =>
+        simp only
+        obtain ⟨h1, h2⟩ := removeTypeFwd_ord hwf ord hord (4 * round + 1)
+        have h3 : (removeTypeFwd Ord.id (4 * round + 1) g) = (removeTypeFwd Ord.id (4 * round' + 1) g) := rfl
+        have hemp : (removeTypeFwd ord (4 * round + 1) g).1.isEmpty = (removeTypeFwd Ord.id (4 * round' + 1) g).1.isEmpty := by
+          rw [← h3]
+          have := congrArg List.length h2
+          rw [(sortByPos_perm _).length_eq, (sortByPos_perm _).length_eq] at this
+          cases ha : (removeTypeFwd ord (4 * round + 1) g).1 <;>
+            cases hb : (removeTypeFwd Ord.id (4 * round + 1) g).1 <;> simp_all
+        rw [hemp, h2, h1, ← h3]
+        split
+        · rfl
+        · exact ih _ _ _ _ (hwf.removeTypeFwd Ord.id _).removeUnresolvable
 
 end Dep
